@@ -61,10 +61,14 @@ C08_DocsFull == {Doc(kind, q, opn, cls, lead, nblk, inlead, nsrc, nwant) :
 C08_Docs == {d \in C08_DocsFull : (d.kind = "free" => d.inlead = 0) /\ (d.opn = "shared" /\ d.kind = "goog" => d.lead > 0)
                                    /\ ~(d.opn = "shared" /\ d.kind = "free" /\ d.lead = 0 /\ d.nsrc = 3)}
             \cup {Doc("free", "one", "shared", "text", 0, 1, 0, 1, 0)}
+            \* freeform layouts whose first or second group is switched off by a skip word (the lines of a switched-off group,
+            \* wants included, still count towards the start line of the doctest)
+            \cup {DocH("free", "d3", "own", "own", lead, 2, 0, 3, nwant, hdr) : lead \in 1..2, nwant \in 1..2, hdr \in {"lead", "mid"}}
 C08_Main == {It(k, 0, "none", nd, sig2, gap, doc) : k \in {"def"}, nd \in 0..1, sig2 \in BOOLEAN, gap \in 0..1, doc \in C08_Docs}
 C08_Fill == {It("def", 0, "none", 0, FALSE, 1, TextD), It("class", 0, "none", 0, FALSE, 0, NoDoc), It("try", 0, "none", 0, FALSE, 0, NoDoc),
              It("def", 1, "plain", 1, FALSE, 0, Free2)}
 C08_Items == C08_Main \cup C08_Fill
+C08_HdrMain == {i \in C08_Main : i.doc.hdr # "none"}
 C08_MainQ == {i \in C08_Main : i.gap = 0 /\ i.doc.lead \in {0, 2} /\ i.doc.nwant \in {0, 2}}
 C08_ItemsQ == C08_MainQ \cup C08_Fill
 C08_ModDocs == {NoDoc, Goog2, Doc("free", "R", "own", "comment", 2, 1, 0, 3, 2)}
